@@ -250,7 +250,7 @@ def canon(j, sort):
     return j
 
 
-def differential(src, c, n=200, seed=0, atoms=None, repo=None, depth=2):
+def differential(src, c, n=200, seed=0, atoms=None, repo=None, depth=2, extra_requires=()):
     """Run the real function of contract c on n generated inputs satisfying `requires` and compare with
     the executable spec.  Returns (tested, mismatches[list of dict])."""
     g = Gen(seed, atoms)
@@ -260,7 +260,7 @@ def differential(src, c, n=200, seed=0, atoms=None, repo=None, depth=2):
         tries += 1
         vals = {p: g.gen(s, depth) for p, s in c.params}
         try:
-            if all(eval_spec(r, vals) for r in c.requires):
+            if all(eval_spec(r, vals) for r in list(c.requires) + list(extra_requires)):
                 cases.append(vals)
         except RecursionError:
             continue
@@ -295,7 +295,7 @@ def differential(src, c, n=200, seed=0, atoms=None, repo=None, depth=2):
 # replay files
 # ---------------------------------------------------------------------------------------------------
 def write_replay(prop, obligation, payload):
-    d = os.path.join(ROOT, "replays", prop)
+    d = os.path.join(os.environ.get("HV_REPLAY_DIR") or os.path.join(ROOT, "replays"), prop)
     os.makedirs(d, exist_ok=True)
     h = hashlib.sha1(json.dumps(payload, sort_keys=True, default=str).encode()).hexdigest()[:10]
     safe = "".join(ch if ch.isalnum() or ch in "._-" else "_" for ch in obligation)[:80]
